@@ -98,10 +98,17 @@ static int tm_same(const tm_res *a, const tm_res *b) {
 typedef struct { int tid; long calls, mismatches, errors, errapi, noslot; long first_bad_req; tm_res bad; } tm_targ;
 static uint64_t tm_seed; static char tm_loc0[512];
 
+static int tm_perthread = 0; static atomic_int tm_perthread_on;
 static void *tm_worker(void *p) {
   tm_targ *a = (tm_targ *)p; long k; xrl_error *slot = NULL;
   tm_tid = a->tid; tm_rng.s = tm_seed * 0x9E3779B97F4A7C15ULL + (uint64_t)(a->tid + 1) * 0xD1B54A32D192ED03ULL;
   a->first_bad_req = -1;
+  /* every second thread runs under its OWN numeric locale (uselocale): the other decimal separator than the process-wide one.  Nothing in the
+   * thread-safe API reads LC_NUMERIC, so the results are still the serial ones; whatever goes through a process-wide libc buffer (localeconv,
+   * strtod with a patched separator) now sees two locales at once */
+  locale_t mine = (locale_t)0;
+  if (tm_perthread && a->tid % 2) { const char *cur = localeconv()->decimal_point; mine = newlocale(LC_NUMERIC_MASK, (cur && cur[0] == ',') ? "C" : "xx_VERIF", (locale_t)0);
+    if (mine) { uselocale(mine); atomic_fetch_add(&tm_perthread_on, 1); } }
   pthread_barrier_wait(&tm_bar);        /* all threads enter the library at the same moment */
   for (k = 0; k < tm_calls; k++) {
     long q = (k == 0 && tm_first >= 0 && tm_first < tm_n) ? tm_first : (long)(xv_next(&tm_rng) % (uint64_t)tm_n); tm_res o; xrl_error *e = NULL;
@@ -122,6 +129,7 @@ static void *tm_worker(void *p) {
     }
   }
   if (slot) xrl_clear_error(&slot);
+  if (mine) { uselocale(LC_GLOBAL_LOCALE); freelocale(mine); }
   tm_tid = -1;
   return NULL;
 }
@@ -178,6 +186,7 @@ int main(int argc, char **argv) {
     else if (!strcmp(argv[a], "--calls") && a + 1 < argc) tm_calls = atol(argv[++a]);
     else if (!strcmp(argv[a], "--yield") && a + 1 < argc) tm_yield = atoi(argv[++a]);
     else if (!strcmp(argv[a], "--fileeps") && a + 1 < argc) tm_fileeps = atol(argv[++a]);
+    else if (!strcmp(argv[a], "--perthread-locale")) tm_perthread = 1;
     else return 2;
   }
   tm_seed = xv_seed_env();
@@ -225,7 +234,7 @@ int main(int argc, char **argv) {
   }
   xrl_verif_hook = NULL;
   f = fopen(argv[4], "w"); if (!f) return 2;
-  fprintf(f, "{\"locale_before_threads\":\"%s\",\"file_episodes\":%ld,\"file_mismatches\":%ld,\"file_bad\":%d,\"threads\":%d,\"requests\":%ld,\"cold\":%d,\"serial_nondeterministic\":%ld,\"locale\":\"%s\",\"bad\":[", tm_loc0, (long)atomic_load(&tm_fdone), (long)atomic_load(&tm_fmis), atomic_load(&tm_fbad), tm_threads, tm_n, cold, nondet, setlocale(LC_ALL, NULL));
+  fprintf(f, "{\"threads_with_their_own_numeric_locale\":%d,\"locale_before_threads\":\"%s\",\"file_episodes\":%ld,\"file_mismatches\":%ld,\"file_bad\":%d,\"threads\":%d,\"requests\":%ld,\"cold\":%d,\"serial_nondeterministic\":%ld,\"locale\":\"%s\",\"bad\":[", atomic_load(&tm_perthread_on), tm_loc0, (long)atomic_load(&tm_fdone), (long)atomic_load(&tm_fmis), atomic_load(&tm_fbad), tm_threads, tm_n, cold, nondet, setlocale(LC_ALL, NULL));
   for (t = 0, a = 0; t < tm_threads; t++) { total += ta[t].calls; mism += ta[t].mismatches; errs += ta[t].errors; errapi += ta[t].errapi;
     if (ta[t].first_bad_req >= 0) { const tm_res *r = &tm_ref[ta[t].first_bad_req], *b = &ta[t].bad;
       /* values as bit patterns: printf of a double follows the process locale (decimal comma under xx_VERIF) */
